@@ -1,8 +1,8 @@
 (* C08 - Indicators inside a Hexital behave exactly like the same indicators standalone. *)
 From Coq Require Import ZArith List String Bool.
-From Hexital Require Import Base.Prelude Base.Num Model.Manager Model.Candle Model.Readings Model.Engine
+From Hexital Require Import Base.Prelude Base.Num Inst.ZInst Model.Manager Model.Candle Model.Readings Model.Engine
   Model.Hexital Model.Analysis Proofs.FrameProofs Proofs.HexitalProofs Proofs.AnalysisProofs Proofs.CausalProofs
-  Proofs.SimProofs Proofs.NonInterference Proofs.DeliverProofs Proofs.ParamProofs Proofs.HxSimProofs Proofs.SeedProofs Proofs.NonInterferenceTF.
+  Proofs.SimProofs Proofs.NonInterference Proofs.DeliverProofs Proofs.ParamProofs Proofs.HxSimProofs Proofs.SeedProofs Proofs.NonInterferenceTF Proofs.HxTwin.
 Import ListNotations.
 
 (* A member that has a timeframe (manager) of its own: appending to the Hexital is exactly
@@ -117,3 +117,64 @@ Theorem C08_leaf_member_on_shared_timeframe_equals_standalone :
                    | Ok _, Ok _ => True | Err e1, Err e2 => e1 = e2 | _, _ => False end).
 Proof. intros O B others Hl Ht Hk Hn Hf s1 s2 HP. eapply noninterference_on_any_manager; eassumption. Qed.
 Print Assumptions C08_leaf_member_on_shared_timeframe_equals_standalone.
+
+(* End to end, for a member B without helper series.  The Hexital holds B on the manager [key]
+   (settings [cfg]) among any other members (pre, post: other names, well-formed trees whose
+   entries B neither reads nor owns); its twin is a standalone B on a manager with the same
+   settings; at the start the two hold related candles (Inv; e.g. both were just built over the
+   same candles: paired_start).  Then along any program - append; calculate() of anything;
+   purge / recalculate / calculate_index / remove_indicator aimed at other members;
+   add_indicator of further members on any timeframe - the twin, given the same candles and the
+   calculate() calls that reach B, never raises where the Hexital does not, and at the end B's
+   manager holds, candle by candle, the twin's timestamps, values and readings. *)
+Theorem C08_leaf_member_of_a_hexital_equals_its_twin :
+  forall (O : NumOps) (B : ind O) (others : list (bool * string)) (key : string) (cfg hcfg : mcfg),
+  i_subs O B = [] /\ i_managed O B = [] -> i_sub O B = false -> leaf_kind O (i_kind O B) = true ->
+  has_dot (i_name O B) = false -> foreign O B others ->
+  forall (ops : list (hop O)) (h h' : hexital O) (twin : store O),
+  Inv O B others key cfg h twin -> Forall (op_allowed O B others key) ops ->
+  foldM (hx_step O hcfg) ops h = Ok h' ->
+  exists s1' twin', alist_get key (h_mgrs O h') = Some (cfg, s1') /\
+    foldM (twin_step O B cfg) ops twin = Ok twin' /\
+    map (fun c => (t c, cur O (p c), alist_get (i_name O B) (inds O (p c)))) s1' =
+    map (fun c => (t c, cur O (p c), alist_get (i_name O B) (inds O (p c)))) twin'.
+Proof. intros O B others key cfg hcfg Hl Ht Hk Hn Hf ops h h' twin HI Hops H. eapply member_equals_twin; eassumption. Qed.
+Print Assumptions C08_leaf_member_of_a_hexital_equals_its_twin.
+
+(* the starting point exists: B's manager and the twin's, both just built over the same candles *)
+Theorem C08_twin_starting_point :
+  forall (O : NumOps) (B : ind O) (others : list (bool * string)) (cfg : mcfg) (xs : list (cd (payload O))) (s : store O),
+  mgr_append O cfg [] xs = Ok s -> PairedM O B others s s.
+Proof. intros O B others cfg xs s H. eapply paired_start; exact H. Qed.
+Print Assumptions C08_twin_starting_point.
+
+(* the invariant and the allowed operations are inhabited: an SMA(2) next to an SMA(3) on a
+   five-minute timeframe with gap filling, built over four raw candles with a hole *)
+Local Open Scope string_scope.
+Local Open Scope Z_scope.
+Definition c08w_B : ind ZOps := top ZOps (K_SMA 2 "close") "SMA_2" 4.
+Definition c08w_A : ind ZOps := top ZOps (K_SMA 3 "high") "SMA_3" 4.
+Definition c08w_others : list (bool * string) := [(false, "SMA_3")].
+Definition c08w_cfg : mcfg := {| tf := Some 300; fillon := true; ha := false; lifespan := None |}.
+Definition c08w_c (ts c : Z) : cd (payload ZOps) := {| t := ts; p := raw_payload ZOps (Build_ohlcv ZOps c c c c 1) |}.
+Definition c08w_xs := [c08w_c 60 10; c08w_c 120 11; c08w_c 400 12; c08w_c 1300 14].
+Definition c08w_s : store ZOps := Eval vm_compute in (match mgr_append ZOps c08w_cfg [] c08w_xs with Ok r => r | Err _ => [] end).
+Definition c08w_h : hexital ZOps :=
+  {| h_mgrs := [("default", ({| tf := None; fillon := true; ha := false; lifespan := None |}, c08w_xs)); ("T5", (c08w_cfg, c08w_s))];
+     h_members := [{| m_ind := c08w_A; m_mgr := "T5" |}; {| m_ind := c08w_B; m_mgr := "T5" |}] |}.
+Lemma c08w_e : mgr_append ZOps c08w_cfg [] c08w_xs = Ok c08w_s. Proof. vm_cast_no_check (@eq_refl (res (store ZOps)) (Ok c08w_s)). Qed.
+Example C08_twin_example_foreign : foreign ZOps c08w_B c08w_others.
+Proof.
+  unfold foreign. intros n sub Hn Hin. destruct Hin as [Hin|[]]. inversion Hin as [[Hs Hr]]. clear Hin.
+  vm_compute in Hn. destruct Hn as [Hn|[Hn|[Hn|[]]]]; subst n; vm_compute in Hr; discriminate Hr.
+Qed.
+Example C08_twin_example_invariant : Inv ZOps c08w_B c08w_others "T5" c08w_cfg c08w_h c08w_s /\
+  op_allowed ZOps c08w_B c08w_others "T5" (HAppend ZOps [c08w_c 1400 15]) /\ op_allowed ZOps c08w_B c08w_others "T5" (HRemove ZOps "SMA_3") /\
+  op_allowed ZOps c08w_B c08w_others "T5" (HAdd ZOps c08w_A (Some ("T10", 600))).
+Proof.
+  split; [split|].
+  - exists [{| m_ind := c08w_A; m_mgr := "T5" |}], []. split; [reflexivity|]. split; [|constructor].
+    constructor; [|constructor]. split; [vm_compute; discriminate|]. split; [apply wf_top|]. vm_compute. intros x Hx. exact Hx.
+  - exists c08w_s. split; [reflexivity|]. eapply paired_start. exact c08w_e.
+  - split; [exact Logic.I|]. split; [reflexivity|]. split; [vm_compute; discriminate|]. split; [apply wf_top|]. vm_compute. intros x Hx. exact Hx.
+Qed.
